@@ -86,11 +86,11 @@ Theorem C19_link_tp_max_climb_thrust_isa : forall (N : Num) (P : params N) (a : 
 Proof. intros; reflexivity. Qed.
 
 Theorem C19_link_piston_nominal_fuel_flow : forall (N : Num) (P : params N) (a : T N) (b : T N),
-  @C19_Extracted.piston_nominal_fuel_flow N P a b = @C19_Model.piston_nominal_fuel_flow N P a b.
+  @C19_Extracted.piston_nominal_fuel_flow N P a b = @C19_Model.piston_nominal_fuel_flow N piston_per_second P a b.
 Proof. intros; reflexivity. Qed.
 
 Theorem C19_link_piston_cruise_fuel_flow : forall (N : Num) (P : params N) (a : T N) (b : T N),
-  @C19_Extracted.piston_cruise_fuel_flow N P a b = @C19_Model.piston_cruise_fuel_flow N P a b.
+  @C19_Extracted.piston_cruise_fuel_flow N P a b = @C19_Model.piston_cruise_fuel_flow N piston_per_second P a b.
 Proof. intros; reflexivity. Qed.
 
 Theorem C19_link_piston_max_climb_thrust_isa : forall (N : Num) (P : params N) (a : T N) (b : T N),
@@ -98,11 +98,11 @@ Theorem C19_link_piston_max_climb_thrust_isa : forall (N : Num) (P : params N) (
 Proof. intros; reflexivity. Qed.
 
 Theorem C19_link_nominal_fuel_flow : forall (N : Num) (E : engine) (P : params N) (a : T N) (b : T N),
-  @C19_Extracted.nominal_fuel_flow N E P a b = @C19_Model.nominal_fuel_flow N E P a b.
+  @C19_Extracted.nominal_fuel_flow N E P a b = @C19_Model.nominal_fuel_flow N piston_per_second E P a b.
 Proof. intros; reflexivity. Qed.
 
 Theorem C19_link_cruise_fuel_flow : forall (N : Num) (E : engine) (P : params N) (a : T N) (b : T N),
-  @C19_Extracted.cruise_fuel_flow N E P a b = @C19_Model.cruise_fuel_flow N E P a b.
+  @C19_Extracted.cruise_fuel_flow N E P a b = @C19_Model.cruise_fuel_flow N piston_per_second E P a b.
 Proof. intros; reflexivity. Qed.
 
 Theorem C19_link_max_climb_thrust_isa : forall (N : Num) (E : engine) (P : params N) (a : T N) (b : T N),
